@@ -13,6 +13,17 @@ E2 = "explicit-state search over operation histories of the real objects against
 E3 = "bounded-exhaustive input/configuration enumeration against a reference model (depth-1 model checking)"
 
 CHECKS = {
+    "C17": dict(
+        engine="E3-enum + E2-hist",
+        category="exploration",
+        technique=E3 + "; every permutation and single repeat of the fragment packets against the real Schedule._handle_msg",
+        text="Complete one-dimensional sweeps inside a 7-day skeleton (all 3001 setpoints, all 288 times of day, zones 00-0B and HW x 1..12 switchpoints "
+        "per day), a small-scope product, all 256 DHW patterns and a compressed-length sweep: validator accepts => decode(encode(s)) == s, every fragment "
+        "<= 41 bytes, every W|0404 built from a fragment decodes back to it. For schedules of 1..5 (thorough 6) fragments, the RP packets are fed to the "
+        "real Schedule._handle_msg in every permutation and with every single repeat at every place: the schedule is the right one or None after every step.",
+        design_ref="4/C17",
+        note="Seven-day schedules with ordered switchpoints (as the statement says); Schedule driven with a stub zone (no lock held).",
+    ),
     "C19": dict(
         engine="E2-hist",
         category="model_checking",
